@@ -52,6 +52,7 @@ def run(ctx):
         ctx.guard(hide, ctx, cfg, fs)
         ctx.guard(comp_rebuild, ctx, cfg, fs)
         ctx.guard(pos_only_source, ctx, cfg, fs)
+        ctx.guard(value_mode_scoped, ctx, cfg, fs)
         ctx.guard(hints, ctx, cfg, fs)
         ctx.guard(wrappers, ctx, cfg, fs)
         before = len(ctx.obs)
@@ -250,6 +251,36 @@ def pos_only_source(ctx, cfg, fs, rule='P.precedence'):
     ctx.ob(rule, 'check_complete:positional-only-from-preceding-item', bool(truth) and not why,
            'the positional-only flag handed to Complete::complete is true exactly under "the preceding item is a PosWord" (%d value site(s)): %s' % (len(truth), '; '.join(sorted(set(why))) or 'ok'), where=cc[0].where(), cfg=cfg)
 
+def value_mode_scoped(ctx, cfg, fs, rule='P.precedence'):
+    """"only values make sense now" (the word being completed is the value of an argument) is concluded only from hints of the
+    ACTIVE level: Comp::only_value is asked about hints that already passed the depth filter of Complete::complete.  Asked about all
+    collected hints, a value hint of an enclosing level (`cmd --opt <TAB>` with --opt declared outside cmd) would silence every
+    name of the subcommand."""
+    b = ctx.look(fs.one(r'^complete_gen::Complete::complete$'))
+    fam = fs.family(b)
+    why = []
+    n = 0
+    for x in fam:
+        for (bb, fn, full) in fn_refs(x):
+            if re.search(r'Comp::only_value$', fn):
+                why.append('only_value handed to an iterator adaptor at %s' % x.where(bb)); n += 1
+        for c in x.calls():
+            if c.is_(r'^complete_gen::Comp::only_value$'):
+                n += 1
+                rs = provenance(x, c.args[0], c.bb, 'term', through=None)
+                if x is not b:
+                    why.append('only_value called inside a closure at %s' % x.where(c.bb)); continue
+                if not (rs and all(r.kind == 'call' and r.call.is_(r'Iterator>?::next$') and 'Filter<' in r.call.full for r in rs)):
+                    why.append('only_value asked about %s at %s' % (sorted({(short(r.call.name) if r.kind == 'call' else r.kind) for r in rs}), x.where(c.bb)))
+    flt = [c for c in b.calls() if c.is_(r'Iterator>?::filter$')]
+    depth_ok = False
+    for c in flt:
+        for r in provenance(b, c.args[1], c.bb, 'term', through=None):
+            if r.kind == 'agg' and r.extra.get('closure') in fs.bodies and any(cc.is_(r'Comp::depth$') for cc in fs.bodies[r.extra['closure']].calls()):
+                depth_ok = True
+    ctx.ob(rule, 'Complete::complete:value-mode-from-active-level-only', n > 0 and not why and depth_ok,
+           'Complete::complete asks only_value %d time(s), always about an element of the depth-filtered iterator (filter on depth present: %s): %s' % (n, depth_ok, why or 'ok'), where=b.where(), cfg=cfg)
+
 def comp_rebuild(ctx, cfg, fs):
     """complete(..) / complete_shell(..) take the hints the inner parser produced out of the state, replace the METAVARIABLE
     hints by their own suggestions and must put every other hint (flag and command names pushed by a parser that succeeded
@@ -259,6 +290,10 @@ def comp_rebuild(ctx, cfg, fs):
         im = [c for c in b.calls() if c.is_(r'is_metavar$')]
         nx = [c for c in b.calls() if c.is_(r'IntoIter<.*Comp.*Iterator>::next$', r'Iterator>?::next$') and 'Comp' in c.full]
         pc = [c.bb for c in b.calls() if c.is_(r'Complete::push_comp$')]
+        if not pc:
+            # nothing is ever handed back: whatever is not a metavariable is dropped (e.g. `.filter_map(Comp::is_metavar)`)
+            ctx.ob('H.hide', '%s:other-hints-put-back' % nm, False, '%s never calls push_comp: stashed hints that are not metavariables are lost' % nm, where=b.where(), cfg=cfg)
+            continue
         if len(im) != 1 or not nx:
             raise Broken('%s::eval: the loop over the stashed hints was not found' % nm)
         sw = switch_on_call(b, im[0])
